@@ -300,6 +300,14 @@ func shortFuncName(f *types.Func) string {
 	if f == nil {
 		return ""
 	}
+	// a renamed function of the module is known under its recorded name (symbols.go)
+	if len(funcAlias) > 0 && idxProg != nil && f.Pkg() != nil && f.Pkg().Path() == modPath {
+		if sf := idxProg.SSA.FuncValue(f); sf != nil {
+			if a, ok := funcAlias[sf]; ok {
+				return a
+			}
+		}
+	}
 	s := f.FullName()
 	return strings.ReplaceAll(s, modPath+".", "")
 }
